@@ -144,6 +144,22 @@ def run(chk):
         for (o, sm) in variants:
             g.append(len(cases)); cases.append('n%d.%d%s api %s %d %s - %s' % (len(groups), o, sm, p, o, sm, ' '.join(ops)))
         groups.append(('format 1 name table on ' + src, g))
+    # the same font files laid out differently: each table graphite reads stored physically last, the file ending on its last byte
+    # (only tables in front of another one need padding) -- a file face must find exactly what a callback face over the same bytes finds
+    for src in (('Padauk.ttf', 'charis_r_gr.ttf') if not thorough else ('Padauk.ttf', 'charis_r_gr.ttf', 'Scheherazadegr.ttf', 'Awami_test.ttf')):
+        data = open(os.path.join(vlib.REPO, 'tests/fonts', src), 'rb').read()
+        tb = _K.font_tables(data)
+        tags = [t for t in (b'head', b'Silf', b'Glat', b'Gloc', b'Feat', b'Sill', b'name', b'cmap', b'hmtx', b'maxp', b'OS/2', b'hhea', b'glyf', b'loca') if t in tb]
+        odd = [t for t in tags if tb[t][1] % 4]
+        for t in (odd if thorough else rng.sample(odd, min(3, len(odd)))) + [rng.choice(tags)]:
+            for padf in (False, True) if thorough else (False,):
+                p = os.path.join(tmp, 'last_%s_%d_%s' % (t.decode().strip().replace('/', '_'), padf, src))
+                open(p, 'wb').write(_K.relayout(data, t, padf))
+                ops = ['info', apiseq.probe_op(rng, src), 'label:0:1033:8', 'seg:0:32:%d:-:-:%s' % (1 if src.startswith(('Awami', 'Schehera')) else 0, ''.join('%08x' % c for c in rng.choice(S.seeds(vlib.REPO, src)[1])[:24])), 'info']
+                g = []
+                for (o, sm) in ((0, 'cb'), (0, 'file'), (7, 'file'), (rng.randrange(1, 7), 'file')):
+                    g.append(len(cases)); cases.append('l%d.%d%s api %s %d %s - %s' % (len(groups), o, sm, p, o, sm, ' '.join(ops)))
+                groups.append(('%s stored last%s in %s' % (t.decode(), '' if padf else ', file ends on its last byte', src), g))
     # the strings the repository itself tests each font with (whole lines of its comparison corpus), lazily loaded against preloaded faces:
     # glyphs that shaping touches only indirectly (collision exclusion glyphs, pseudo glyphs) are loaded by different routes
     # a collision font whose glyphs have bounding octaboxes but no sub-boxes (the preloading constructor reads the octaboxes in the same
@@ -201,7 +217,7 @@ def run(chk):
     shutil.rmtree(tmp, ignore_errors=True)
     chk.cov.update(evaluations=ng + len(cases), distinct_nontrivial=len(classes), disagreements_checked=ndis, distribution=dist,
                    rule='glyph cache lookups on lazy / preloaded faces against the model; API: %d call sequences (face report, segments in 3 encodings and dir 0..7 with fonts and feature values, labels, value labels, '
-                        'justification, face report again) each run on faces with option bits 0..7 x {callbacks, file} (all 16 in thorough, 6 sampled + every 4th full in quick), every result compared; '
+                        'justification, face report again) each run on faces with option bits 0..7 x {callbacks, file}; fonts re-laid-out with each table graphite reads stored last and the file ending on its last byte; (all 16 in thorough, 6 sampled + every 4th full in quick), every result compared; '
                         'non-trivial = distinct (font, face verdict, #variants, #results)' % len(groups),
                    samples=[cases[0][:200], cases[len(cases) // 2][:200]], exhaustive=False)
 
